@@ -110,6 +110,15 @@ def independence_probe(rep: Report) -> List[List[int]]:
         q = f.quantise(x)
         ndist = len(torch.unique(q))
         ev.append([E, M, 5, 23 - M, int(ndist == 2), 1, 1, 1, 0, 0])
+        # the same through BROADCAST views (stride 0: one stored element, many logical ones -- e.g. the gradient of y.sum()) and
+        # through the straight-through wrappers: every logical element still draws for itself
+        for make in (lambda: torch.tensor(1.0 + 2.0 ** -(M + 1)).expand(4096), lambda: torch.full((64, 1), 1.0 + 2.0 ** -(M + 1)).expand(64, 64)):
+            xv = make()
+            qv = f.quantise(xv)
+            ev.append([E, M, 5, 23 - M, int(len(torch.unique(qv)) == 2), int(qv.shape == xv.shape), int(qv.dtype == xv.dtype), 1, 0, 0])
+        t = torch.zeros(4096, requires_grad=True)
+        f.quantise_bwd(t).backward(torch.tensor(1.0 + 2.0 ** -(M + 1)).expand(4096))
+        ev.append([E, M, 5, 23 - M, int(len(torch.unique(t.grad)) == 2), 1, 1, 1, 0, 0])
     return ev
 
 
